@@ -80,7 +80,7 @@ def case_analysis(chk):
     A, B, C = object(), object(), object()
     outcomes = ["incomplete", "syntax-error", "hy-macro", "hy-require", "hy-type", "value", "none", "raises", "stmt-raises"]
     try:
-        for outcome, out_fn, prior_failed in itertools.product(outcomes, ("ok", "raises"), (False, True)):
+        for outcome, out_fn, prior_failed, prior_flag in itertools.product(outcomes, ("ok", "raises"), (False, True), (False, True)):
             r = new_repl(output_fn=(lambda v: "OUT") if out_fn == "ok" else (lambda v: (_ for _ in ()).throw(RuntimeError("out"))))
             # arbitrary state satisfying the invariant: three distinct earlier results; last_value is the latest one
             r.locals[S1], r.locals[S2], r.locals[S3] = A, B, C
@@ -88,6 +88,8 @@ def case_analysis(chk):
             r.locals[SE] = None
             if prior_failed:
                 r.print_last_value = False
+            # every piece of per-input state the previous input may have left behind is part of the arbitrary start state
+            r.has_new_value = prior_flag
             V = object()
             script = Script(outcome, V if outcome == "value" else None)
             code.InteractiveConsole.runsource = (lambda sc: (lambda self, *a, **k: sc(self, *a, **k)))(script)
@@ -100,7 +102,8 @@ def case_analysis(chk):
             finally:
                 sys.excepthook = hook
             got = (r.locals[S1], r.locals[S2], r.locals[S3])
-            name = f"history/outcome={outcome}/output_fn={out_fn}/previous input {'failed' if prior_failed else 'succeeded'}"
+            name = (f"history/outcome={outcome}/output_fn={out_fn}/previous input {'failed' if prior_failed else 'succeeded'}"
+                    f"/stale new-value flag {'set' if prior_flag else 'clear'}")
             chk.case(name)
             succeeded = outcome in ("value", "none")
             if succeeded:
